@@ -73,7 +73,21 @@ def gen_shape(r, small=False):
            for v in r.sample(range(n), r.choice([0, 0, r.randint(0, n)]))]
     gap = r.choice([Fraction(0), Fraction(0), Fraction(1, 10), Fraction(1, 2)])
     limit = r.choice([None, None, None, 1, 3])
-    return {"raw_bins": raw_bins, "rows": rows, "cons": cons, "prods": prods, "lin": lin, "gap": gap, "limit": limit}
+    # general integers (a documented variable type of the interface; aldy's own models have none): index n + j in terms.
+    # They take part in rows, side constraints and the objective but are not binaries: never part of a yielded assignment
+    ints = []
+    if r.random() < 0.25:
+        for j in range(r.randint(1, 2)):
+            ints.append((f"g{j}", r.randint(2, 3)))
+            v = n + j
+            row = r.choice(rows)
+            row["terms"] = list(row["terms"]) + [(r.choice([1, 1, -1]), v)]
+            if r.random() < 0.5:
+                lin = lin + [(r.choice([Fraction(1, 10), Fraction(1, 2), Fraction(1)]), v)]
+            if r.random() < 0.4:
+                b = r.randrange(n)
+                cons.append({"terms": [(1, b), (-1, v)], "sense": "le", "rhs": Fraction(0)})   # b <= g
+    return {"raw_bins": raw_bins, "rows": rows, "cons": cons, "prods": prods, "lin": lin, "gap": gap, "limit": limit, "ints": ints}
 
 
 def build_real(shape):
@@ -82,6 +96,7 @@ def build_real(shape):
     m = lpinterface.model("verif", "cbc")
     V = [m.addVar(vtype="B", name=b) for b in shape["raw_bins"]]
     names = [m.varName(v) for v in V]
+    V = V + [m.addVar(vtype="I", lb=0, ub=ub, name=nm) for nm, ub in shape.get("ints", [])]
     E = []
     for i, row in enumerate(shape["rows"]):
         B = row["bound"]
@@ -108,8 +123,10 @@ def build_real(shape):
 
 
 def wire_shape(shape, names):
+    names = list(names) + [nm for nm, _ in shape.get("ints", [])]
     return {
-        "bins": names,
+        "ints": [[nm, ub] for nm, ub in shape.get("ints", [])],
+        "bins": names[:len(shape["raw_bins"])],
         "rows": [{"terms": [[lib.frac(c), names[v]] for c, v in r["terms"]], "target": lib.frac(r["target"]),
                   "weight": lib.frac(r["weight"]), "bound": None if r["bound"] is None else lib.frac(r["bound"])} for r in shape["rows"]],
         "cons": [{"terms": [[lib.frac(k), names[v]] for k, v in c["terms"]], "sense": c["sense"], "rhs": lib.frac(c["rhs"])} for c in shape["cons"]],
@@ -152,7 +169,8 @@ def run_real(shape):
 def oracle_points(shape):
     n = len(shape["raw_bins"])
     pts = []
-    for bits in itertools.product([0, 1], repeat=n):
+    ints = shape.get("ints", [])
+    for bits in itertools.product(*([[0, 1]] * n + [range(ub + 1) for _, ub in ints])):
         ok = True
         for c in shape["cons"]:
             s = sum(k * bits[v] for k, v in c["terms"])
@@ -219,7 +237,7 @@ def oracle_check(shape, real, eps, tol=Fraction(1, 10**6)):
         if trace[i]["obj"] < trace[i - 1]["obj"] - float(tol):
             why.append(f"objectives decrease at yield {i}")
     # helper read-back
-    for k, (a, hs) in enumerate(zip(acts, real["helpers"])):
+    for k, (a, hs) in enumerate(zip(acts, real["helpers"] if not shape.get("ints") else [])):   # with general integers the error is not a function of the binaries alone
         for i, (r, (e, ab)) in enumerate(zip(shape["rows"], hs)):
             err = r["target"] - sum(c * (1 if v in a else 0) for c, v in r["terms"])
             if abs(Fraction(e) - err) > tol or (r["weight"] > 0 and abs(Fraction(ab) - abs(err)) > tol):
@@ -252,7 +270,8 @@ def case_json(shape):
         "bins": shape["raw_bins"],
         "rows": [{"terms": r["terms"], "target": str(r["target"]), "weight": str(r["weight"]), "bound": None if r["bound"] is None else str(r["bound"])} for r in shape["rows"]],
         "cons": [{"terms": c["terms"], "sense": c["sense"], "rhs": str(c["rhs"])} for c in shape["cons"]],
-        "prods": shape["prods"], "lin": [[str(k), v] for k, v in shape["lin"]], "gap": str(shape["gap"]), "limit": shape["limit"]}.items()}
+        "prods": shape["prods"], "lin": [[str(k), v] for k, v in shape["lin"]], "gap": str(shape["gap"]), "limit": shape["limit"],
+        "ints": [list(x) for x in shape.get("ints", [])]}.items()}
 
 
 def shape_from_json(j):
@@ -261,7 +280,7 @@ def shape_from_json(j):
                       "bound": None if r["bound"] is None else Fraction(r["bound"])} for r in j["rows"]],
             "cons": [{"terms": [tuple(t) for t in c["terms"]], "sense": c["sense"], "rhs": Fraction(c["rhs"])} for c in j["cons"]],
             "prods": [(p[0], list(p[1])) for p in j["prods"]], "lin": [(Fraction(k), v) for k, v in j["lin"]],
-            "gap": Fraction(j["gap"]), "limit": j["limit"]}
+            "gap": Fraction(j["gap"]), "limit": j["limit"], "ints": [tuple(x) for x in j.get("ints", [])]}
 
 
 def exhaustive_gadgets():
@@ -293,7 +312,7 @@ def run_cases(shapes, eps):
         reqs.append({"op": "c05", "shape": ws, "gap": lib.frac(sh["gap"]), "eps": lib.frac(eps), "tol": "1/1000000",
                      "limit": sh["limit"],
                      "trace": [{"act": t["act"], "obj": lib.frac(t["obj"])} for t in real["trace"]],
-                     "helpers": [[[lib.frac(e), lib.frac(a)] for e, a in hs] for hs in real["helpers"]]})
+                     "helpers": [] if sh.get("ints") else [[[lib.frac(e), lib.frac(a)] for e, a in hs] for hs in real["helpers"]]})
         reqs.append({"op": "escape", "raw": sh["raw_bins"]})
         data.append((sh, real))
     return reqs, data
@@ -319,7 +338,7 @@ def tie(ctx):
            "escape_name": {"cases": 0, "disagreements": []}}
     violations = []
     stats = {"yields": 0, "models_with_gap": 0, "models_with_limit": 0, "infeasible": 0, "with_prod": 0, "multi_yield": 0,
-             "weird_names": 0, "bins_hist": {}, "npoints_hist": {}}
+             "weird_names": 0, "with_general_integers": 0, "bins_hist": {}, "npoints_hist": {}}
     distinct = set()
     samples = []
     for i, (sh, real) in enumerate(data):
@@ -352,6 +371,7 @@ def tie(ctx):
         stats["with_prod"] += bool(sh["prods"])
         stats["multi_yield"] += len(real["trace"]) > 1
         stats["weird_names"] += real["names"] != sh["raw_bins"]
+        stats["with_general_integers"] += bool(sh.get("ints"))
         nb = str(len(sh["raw_bins"]))
         stats["bins_hist"][nb] = stats["bins_hist"].get(nb, 0) + 1
         npb = str(min(64, o_run["npoints"]) // 8 * 8)
